@@ -7,7 +7,7 @@ import sys
 import time
 
 ROOT = os.path.dirname(os.path.dirname(os.path.abspath(__file__)))
-sys.path[:0] = [ROOT, "/repo"]
+sys.path[:0] = [ROOT, os.environ.get("VERIF_REPO", "/repo")]
 os.environ.setdefault("PYTHONHASHSEED", "0")
 
 from harness import common, dynamic, corpus, tlc   # noqa: E402
@@ -55,7 +55,7 @@ def dynamic_jobs(tier, seed, prop):
     if prop in BASE_PROPS:
         for n in corpus.names():
             jobs.append(exh(("corpus_dict", n)))
-        for n in ["fw_asym", "deny", "two_public", "user_only"]:
+        for n in ["fw_asym", "deny", "two_public", "user_only", "two_layer", "name_clash"]:
             jobs.append(exh(("corpus_yaml", n)))
         jobs.append(exh(("bench_yaml", "tiny")))
         if quick:
